@@ -470,6 +470,14 @@ def oracle(case, obs):
     if depth == "thin" and route != "extract_keep" and not obs["summary_equal"] and _has_unifurcation(case):
         return ("%s: extract_tree() without a filter removed outdegree-1 nodes (documented: only when nodes are excluded): %s"
                 % (tag, obs["summary_diff"]), "extract-tree-unfiltered-suppresses-unifurcations")
+    if (depth == "shallow" and kind in ("dna", "standard", "continuous") and not obs["summary_equal"]
+            and obs.get("summary_diff", "").split(":")[0] in ("/subsets", "/chartypes")):
+        return ("%s: the shallow copy of a character matrix drops character_subsets / character_types (documented: "
+                "all member objects are references): %s" % (tag, obs["summary_diff"]),
+                "shallow-matrix-copy-drops-character-subsets-and-types")
+    if kind == "standard" and not obs["summary_equal"] and obs.get("summary_diff", "").startswith("/alphabet"):
+        return ("%s: the copy of a StandardCharacterMatrix has a different state alphabet than the one its cells belong to: %s"
+                % (tag, obs["summary_diff"]), "standard-matrix-copy-replaces-state-alphabet")
     if not obs["summary_equal"]:
         return ("%s: copy differs from source in observable content: %s" % (tag, obs.get("summary_diff")),
                 "content:%s:%s:%s" % (kind, _route_class(route), _diff_class(obs.get("summary_diff", ""))))
